@@ -484,6 +484,9 @@ func c01(c *ctx) {
 	for k := 0; k < 2; k++ {
 		c01staleTermination(c, k)
 	}
+	for k := 0; k < 2; k++ {
+		c01creatorLost(c, k)
+	}
 	nsys := 6
 	if c.thorough() {
 		nsys = 60
